@@ -17,6 +17,9 @@ struct Case {
     /// 0 = ordinary case; n > 0 = the n-th fixed merge document (doc / layout / bad_leaf unused)
     #[serde(default)]
     special: u8,
+    /// n > 0 = the (n-1)-th case of the alias-error-sites grid (everything else unused)
+    #[serde(default)]
+    alias_err: u16,
 }
 
 // ---------------- generic span tree -------------------------------------------------------------
@@ -360,6 +363,12 @@ fn check_merge_static(text: &str) -> Result<(), String> {
 }
 
 fn check_case(c: &Case) -> Outcome {
+    if c.alias_err > 0 {
+        return match check_alias_error_sites(c.alias_err as usize - 1) {
+            Ok(()) => Outcome::Pass,
+            Err(m) => Outcome::Fail(m),
+        };
+    }
     if c.special >= 30 && c.special < 50 {
         let text = MERGE_STATIC[(c.special as usize - 30) % MERGE_STATIC.len()];
         return match check_merge_static(text) {
@@ -514,6 +523,105 @@ fn check_merge(text: &str, base_vals: &[(String, (usize, usize))], alias_pos: (u
                 return Err(format!("merged key {k}: referenced {}:{}, the merge entry's value is at {}:{}", sp.referenced.line(), sp.referenced.column(), alias_pos.0, alias_pos.1));
             }
         }
+    }
+    Ok(())
+}
+
+// ---------------- errors caused by a value reached through an alias ------------------------------
+// "For a value reached through an alias or a merge the use-site location is that of the alias /
+// merge entry and the definition-site location that of the anchored node, and an error caused by
+// such a value reports both." An anchored scalar of the wrong type is used through `*a` in every
+// position a value can take; the error must carry both sites (Error::locations()).
+#[derive(Debug, Deserialize)]
+#[allow(dead_code)]
+enum AeE {
+    New(i32),
+    Tup(i32, i32),
+    St { x: i32 },
+}
+#[derive(Debug, Deserialize)]
+#[allow(dead_code)]
+struct AeInner {
+    a: Option<i32>,
+}
+#[derive(Debug)]
+struct AeBytes(#[allow(dead_code)] Vec<u8>);
+impl<'de> Deserialize<'de> for AeBytes {
+    fn deserialize<D: Deserializer<'de>>(d: D) -> Result<Self, D::Error> {
+        serde_bytes::ByteBuf::deserialize(d).map(|b| AeBytes(b.into_vec()))
+    }
+}
+#[derive(Debug, Deserialize)]
+#[allow(dead_code)]
+struct AeDoc<T> {
+    s: serde::de::IgnoredAny,
+    n: T,
+}
+const AE_POSITIONS: usize = 11;
+const AE_VALUES: [&str; 4] = ["text", "\u{4e16}\u{754c}", "\"q r\"", "3.5"];
+const AE_GRID: usize = AE_POSITIONS * 4 * 3 * 3;
+fn check_alias_error_sites(code: usize) -> Result<(), String> {
+    let pos = code % AE_POSITIONS;
+    let val = AE_VALUES[(code / AE_POSITIONS) % 4];
+    let lead = (code / (AE_POSITIONS * 4)) % 3;
+    let pad = ["", " ", "   "][(code / (AE_POSITIONS * 12)) % 3];
+    // the byte sequence wants an out-of-range integer rather than text to be "of the wrong type"
+    let val = if pos == 5 && val == "3.5" { "300" } else { val };
+    let mut text = String::new();
+    for i in 0..lead {
+        text.push_str(&format!("# \u{e9} lead {i}\n"));
+    }
+    let l1 = format!("s:{pad} &a {val}\n");
+    text.push_str(&l1);
+    let use_lines: String = match pos {
+        0 | 9 => format!("n:{pad} *a\n"),
+        1 | 5 => format!("n: [1,{pad} *a]\n"),
+        2 => format!("n: {{New:{pad} *a}}\n"),
+        3 => format!("n: {{Tup:{pad} *a}}\n"),
+        4 => format!("n: {{St:{pad} *a}}\n"),
+        6 => format!("n:\n  <<:{pad} *a\n"),
+        7 => format!("n:\n  <<: [{pad}*a]\n"),
+        8 => format!("n:\n  k:{pad} *a\n"),
+        _ => format!("n:\n  -{pad} *a\n"),
+    };
+    text.push_str(&use_lines);
+    // ground truth by construction
+    let def = (lead + 1, l1.chars().position(|ch| ch == 'a').unwrap() + 3); // "&a " then the value
+    let def = (def.0, l1.chars().count() - val.chars().count()); // 1-based column of the value's first character
+    let star_line_off = use_lines.lines().position(|l| l.contains('*')).unwrap();
+    let star_line = use_lines.lines().nth(star_line_off).unwrap();
+    let alias = (lead + 2 + star_line_off, star_line.chars().position(|ch| ch == '*').unwrap() + 1);
+    fn run<T: for<'de> Deserialize<'de> + std::fmt::Debug>(text: &str) -> Result<serde_saphyr::Error, String> {
+        match serde_saphyr::from_str::<AeDoc<T>>(text) {
+            Ok(v) => Err(format!("accepted as {v:?}")),
+            Err(e) => Ok(e),
+        }
+    }
+    let err = match pos {
+        0 => run::<i32>(&text),
+        1 => run::<Vec<i32>>(&text),
+        2 | 3 | 4 => run::<AeE>(&text),
+        5 => run::<AeBytes>(&text),
+        6 | 7 => run::<AeInner>(&text),
+        8 => run::<std::collections::BTreeMap<String, i32>>(&text),
+        9 => run::<Option<i32>>(&text),
+        _ => run::<Vec<Option<i32>>>(&text),
+    }
+    .map_err(|m| format!("alias-error-sites: a document with a value of the wrong type is {m} (text {text:?})"))?;
+    let ix = index(&text);
+    let msg = err.without_snippet().to_string();
+    let Some(locs) = err.locations() else {
+        return Err(format!("alias-error-sites: the error carries no locations: {msg} (text {text:?})"));
+    };
+    consistent(&ix, &locs.reference_location, "use-site location").map_err(|m| format!("{m} (text {text:?})"))?;
+    consistent(&ix, &locs.defined_location, "definition-site location").map_err(|m| format!("{m} (text {text:?})"))?;
+    let r = (locs.reference_location.line() as usize, locs.reference_location.column() as usize);
+    let d = (locs.defined_location.line() as usize, locs.defined_location.column() as usize);
+    if r != alias || d != def {
+        return Err(format!(
+            "alias-error-sites: an error caused by a value reached through an alias reports use site {}:{} / definition site {}:{}; the alias is at {}:{}, the anchored node at {}:{} ({msg}; text {text:?})",
+            r.0, r.1, d.0, d.1, alias.0, alias.1, def.0, def.1
+        ));
     }
     Ok(())
 }
@@ -725,9 +833,9 @@ impl Property for C16 {
         let script = gdoc::script_from_bytes(&mut b, 24);
         let t = gdoc::tree_from_bytes(&mut b, if stray { 3 } else { 4 });
         let c = if stray {
-            Case { doc: gdoc::decorate(&t, &script, 20, 20, 0), layout: Layout::from_bits(lb), bad_leaf: Some(pos as usize), special: 100 + tok }
+            Case { doc: gdoc::decorate(&t, &script, 20, 20, 0), layout: Layout::from_bits(lb), bad_leaf: Some(pos as usize), special: 100 + tok, alias_err: 0 }
         } else {
-            Case { doc: gdoc::decorate(&t, &script, a, al, 0), layout: Layout::from_bits(lb), bad_leaf: None, special: 0 }
+            Case { doc: gdoc::decorate(&t, &script, a, al, 0), layout: Layout::from_bits(lb), bad_leaf: None, special: 0, alias_err: 0 }
         };
         let nt = nontrivial(&c);
         Some((if stray { "fuzz-syntax-error-locations" } else { "fuzz-spanned-tree" }, c, nt))
@@ -735,7 +843,7 @@ impl Property for C16 {
     fn generate(ctx: &mut Ctx<Self>) {
         // (1) generic span tree over decorated documents
         let strat = (gdoc::arb_tree(4, 24), prop::collection::vec(any::<u16>(), 8..40), prop::sample::select(vec![(0u16, 0u16), (25, 25), (35, 30)]), 0u32..(1 << 12))
-            .prop_map(|(t, s, (a, al), lb)| Case { doc: gdoc::decorate(&t, &s, a, al, 0), layout: Layout::from_bits(lb), bad_leaf: None, special: 0 });
+            .prop_map(|(t, s, (a, al), lb)| Case { doc: gdoc::decorate(&t, &s, a, al, 0), layout: Layout::from_bits(lb), bad_leaf: None, special: 0, alias_err: 0 });
         ctx.run_strategy("spanned-tree", 1, ctx.tier.pick(60_000, 800_000), &strat, nontrivial);
         // (1b) syntax errors: a stray token at a random position
         let strat = (gdoc::arb_tree(3, 16), prop::collection::vec(any::<u16>(), 8..24), 0u32..(1 << 12), any::<u16>(), 0u8..10).prop_map(|(t, s, lb, pos, tok)| Case {
@@ -743,6 +851,7 @@ impl Property for C16 {
             layout: Layout::from_bits(lb),
             bad_leaf: Some(pos as usize),
             special: 100 + tok,
+            alias_err: 0,
         });
         ctx.run_strategy("syntax-error-locations", 3, ctx.tier.pick(40_000, 500_000), &strat, |c| c.layout.mb_prefix || c.layout.comments);
         // (1c) directive lines in front of the document
@@ -751,6 +860,7 @@ impl Property for C16 {
             layout: Layout::from_bits(lb),
             bad_leaf: None,
             special: 50 + d,
+            alias_err: 0,
         });
         ctx.run_strategy("directive-prefix", 4, ctx.tier.pick(20_000, 200_000), &strat, |_| true);
         // (2) integer trees: spanned + every leaf in turn as a type error
@@ -758,7 +868,7 @@ impl Property for C16 {
             let doc = gdoc::decorate(&t, &s, a, al, 0);
             let leaves = scalar_leaves(&doc);
             if leaves.is_empty() || pick % 4 == 0 {
-                return Case { doc, layout: Layout::from_bits(lb), bad_leaf: None, special: 0 };
+                return Case { doc, layout: Layout::from_bits(lb), bad_leaf: None, special: 0, alias_err: 0 };
             }
             let leaf = leaves[(pick as usize * leaves.len()) >> 16];
             // replace that leaf by a non-integer
@@ -772,7 +882,7 @@ impl Property for C16 {
                 }
                 i += 1;
             });
-            Case { doc: d2, layout: Layout::from_bits(lb), bad_leaf: Some(leaf), special: 0 }
+            Case { doc: d2, layout: Layout::from_bits(lb), bad_leaf: Some(leaf), special: 0, alias_err: 0 }
         });
         ctx.run_strategy("typed-int-tree", 2, ctx.tier.pick(60_000, 800_000), &strat, |c| c.bad_leaf.is_some());
         // every leaf of a fixed set of documents, exhaustively
@@ -806,7 +916,7 @@ impl Property for C16 {
                             i += 1;
                         });
                     }
-                    let c = Case { doc: d2, layout: Layout::from_bits(lb), bad_leaf: leaf, special: 0 };
+                    let c = Case { doc: d2, layout: Layout::from_bits(lb), bad_leaf: leaf, special: 0, alias_err: 0 };
                     let nt = nontrivial(&c);
                     ctx.case("fixed-docs-every-leaf", &c, nt);
                 }
@@ -815,16 +925,20 @@ impl Property for C16 {
         ctx.subspace("3 fixed documents x every scalar leaf (or none) x 586 layouts", total, true);
         if ctx.worker == 0 {
             for n in 30..30 + MERGE_STATIC.len() as u8 {
-                let c = Case { doc: Node::plain("merge-static"), layout: Layout::default(), bad_leaf: None, special: n };
+                let c = Case { doc: Node::plain("merge-static"), layout: Layout::default(), bad_leaf: None, special: n, alias_err: 0 };
                 ctx.case("merged-key-static-errors", &c, true);
             }
             for n in 1..=MERGE_DOCS.len() as u8 {
-                let c = Case { doc: Node::plain("merge"), layout: Layout::default(), bad_leaf: None, special: n };
+                let c = Case { doc: Node::plain("merge"), layout: Layout::default(), bad_leaf: None, special: n, alias_err: 0 };
                 ctx.case("merge-locations", &c, true);
             }
             // 4 payload forms x sequence item / mapping value x 0-2 leading lines x 3 paddings
+            for n in 0..AE_GRID as u16 {
+                let c = Case { doc: Node::plain("alias-error"), layout: Layout::default(), bad_leaf: None, special: 0, alias_err: n + 1 };
+                ctx.case("alias-error-sites", &c, true);
+            }
             for n in 0..56u8 {
-                let c = Case { doc: Node::plain("enum-payload"), layout: Layout::default(), bad_leaf: None, special: 200 + n };
+                let c = Case { doc: Node::plain("enum-payload"), layout: Layout::default(), bad_leaf: None, special: 200 + n, alias_err: 0 };
                 ctx.case("enum-payload-locations", &c, true);
             }
         }
